@@ -330,3 +330,79 @@ Proof. exact (fun a b => fmt_integer_hex f r v false a b). Qed.
 Lemma fmt_integer_X f r v : st_matches f r -> unsigned_ok r CX (v mod two64) ->
   fmt_integer f (v mod two64) 16 false true = c_unsigned r CX v.
 Proof. exact (fun a b => fmt_integer_hex f r v true a b). Qed.
+
+(* ---- math/big's Format (used by sprintf for %d beyond int64) ---- *)
+Theorem big_format_signed f r v : st_matches f r -> v <> 0 ->
+  big_format f v 10 false = c_signed r v.
+Proof.
+  intros (Hw & HwP & Hw0 & Hm & Hp & Hs & Hsp & Hz & Hpr & Hp0) Hv.
+  unfold big_format, c_signed, c_digits, c_field.
+  replace (10 =? 8) with false by reflexivity. replace (10 =? 16) with false by reflexivity.
+  rewrite (digits_of_to_digits 10 (Z.abs v) false) by lia.
+  rewrite Hpr, <- Hm, <- Hp, <- Hsp, Hw in *. clear Hpr.
+  set (ds := to_digits 10 (Z.abs v) false).
+  pose proof (to_digits_nonempty 10 (Z.abs v) false) as Hne. fold ds in Hne.
+  change (if v <? 0 then [45] else if fplus f then [43] else if fspace f then [32] else [])
+    with (sign_of (v <? 0) (fplus f) (fspace f)).
+  set (sg := sign_of (v <? 0) (fplus f) (fspace f)).
+  replace (if fsharp f then [] else []) with (@nil Z) by (destruct (fsharp f); reflexivity).
+  replace (v =? 0) with false by (symmetry; apply Z.eqb_neq; exact Hv).
+  replace (Z.abs v =? 0) with false by (symmetry; apply Z.eqb_neq; lia).
+  rewrite !andb_false_r. cbn [andb app]. rewrite !padding_rep. change (zlen (@nil Z)) with 0.
+  assert (Hsg : 0 <= zlen sg) by apply zlen_nonneg.
+  destruct (precP f) eqn:EP; cbn [andb negb].
+  - (* precision given *)
+    rewrite andb_false_r.
+    destruct (zlen ds <? prec f) eqn:EL.
+    + apply Z.ltb_lt in EL. rewrite !zlen_app, zlen_rep.
+      destruct (widP f) eqn:EW; cbn [andb].
+      * destruct (zlen sg + 0 + (prec f - zlen ds) + zlen ds <? r_width r) eqn:EF.
+        -- apply Z.ltb_lt in EF. destruct (fminus f); rewrite ?andb_false_r, <- ?app_assoc; rep_eq.
+        -- apply Z.ltb_ge in EF. rewrite !(rep_nonpos (r_width r - _)) by lia. destruct (fminus f); rewrite ?andb_false_r, ?app_nil_r; reflexivity.
+      * rewrite (HwP eq_refl). rewrite !(rep_nonpos (0 - _)) by lia. destruct (fminus f); rewrite ?andb_false_r, ?app_nil_r; reflexivity.
+    + apply Z.ltb_ge in EL. rewrite (rep_nonpos (prec f - zlen ds)) by lia. rewrite (rep_nonpos 0) by lia. cbn [app].
+      destruct (widP f) eqn:EW; cbn [andb].
+      * destruct (zlen sg + 0 + 0 + zlen ds <? r_width r) eqn:EF.
+        -- apply Z.ltb_lt in EF. destruct (fminus f); rewrite ?andb_false_r, <- ?app_assoc; rep_eq.
+        -- apply Z.ltb_ge in EF. rewrite !(rep_nonpos (r_width r - _)) by lia. destruct (fminus f); rewrite ?andb_false_r, ?app_nil_r; reflexivity.
+      * rewrite (HwP eq_refl). rewrite !(rep_nonpos (0 - _)) by lia. destruct (fminus f); rewrite ?andb_false_r, ?app_nil_r; reflexivity.
+  - (* no precision *)
+    rewrite (rep_nonpos (1 - zlen ds)) by lia. rewrite (rep_nonpos 0) by lia. cbn [app]. rewrite andb_true_r.
+    destruct (widP f) eqn:EW; cbn [andb].
+    + destruct (zlen sg + 0 + 0 + zlen ds <? r_width r) eqn:EF.
+      * apply Z.ltb_lt in EF. destruct (fminus f) eqn:EM; [rewrite <- ?app_assoc; rep_eq|].
+        rewrite <- (Hz eq_refl). destruct (fzero f); cbn [andb]; rewrite <- ?app_assoc; rep_eq.
+      * apply Z.ltb_ge in EF. rewrite !(rep_nonpos (r_width r - _)) by lia.
+        destruct (fminus f) eqn:EM; [rewrite ?app_nil_r; reflexivity|].
+        destruct (r_zero r); reflexivity.
+    + rewrite (HwP eq_refl). rewrite !(rep_nonpos (0 - _)) by lia.
+      destruct (fminus f); [rewrite ?app_nil_r; reflexivity|]. destruct (r_zero r); reflexivity.
+Qed.
+
+(* ---- interp.nonFinite's Format ---- *)
+Theorem nf_format_nonfinite f r x verb : st_matches f r ->
+  (match x with FFin _ _ => False | _ => True end) ->
+  nf_format f x verb = c_nonfinite r x ((verb =? 69) || (verb =? 71) || (verb =? 88)).
+Proof.
+  intros (Hw & HwP & Hw0 & Hm & Hp & Hs & Hsp & Hz & Hpr & Hp0) Hx.
+  unfold nf_format, c_nonfinite, c_field. rewrite <- Hm, <- Hp, <- Hsp, Hw in *.
+  generalize ((verb =? 69) || (verb =? 71) || (verb =? 88)). intros up.
+  assert (G : forall sg word : bytes,
+    (if widP f && (r_width r >? zlen (sg ++ word))
+     then if fminus f then (sg ++ word) ++ padding (r_width r - zlen (sg ++ word)) 32
+          else padding (r_width r - zlen (sg ++ word)) 32 ++ sg ++ word
+     else sg ++ word)
+    = (if fminus f then sg ++ word ++ rep (r_width r - (zlen sg + zlen word)) 32
+       else if r_zero r && false then sg ++ rep (r_width r - (zlen sg + zlen word)) 48 ++ word
+       else rep (r_width r - (zlen sg + zlen word)) 32 ++ sg ++ word)).
+  { intros sg word. rewrite !padding_rep. rewrite andb_false_r. rewrite zlen_app.
+    assert (Hl : 0 <= zlen sg + zlen word) by (pose proof (zlen_nonneg sg); pose proof (zlen_nonneg word); lia).
+    destruct (widP f) eqn:EW; cbn [andb].
+    - destruct (r_width r >? zlen sg + zlen word) eqn:EF.
+      + destruct (fminus f); rewrite <- ?app_assoc; reflexivity.
+      + rewrite Z.gtb_ltb in EF. apply Z.ltb_ge in EF. rewrite !rep_nonpos by lia.
+        destruct (fminus f); rewrite <- ?app_assoc, ?app_nil_r; reflexivity.
+    - rewrite (HwP eq_refl). rewrite !rep_nonpos by lia.
+      destruct (fminus f); rewrite <- ?app_assoc, ?app_nil_r; reflexivity. }
+  destruct x as [|neg|m e]; [| |contradiction]; apply G.
+Qed.
